@@ -37,7 +37,9 @@ template<class T2, class T>
 const SharedCore<T2>* cast_(const SharedCore<T>* c)
 {
 	SharedCore<T2>* c2 = (SharedCore<T2>*)c;
-	c2->p = c->p;
+	T2* p = c->p;
+	if (c2->p != p) // the core is shared with other handles and threads: store only a pointer that really changes
+		c2->p = p;
 	return c2;
 }
 
